@@ -97,7 +97,12 @@ DimClauses(r) ==
     (* template, so they are bitwise those of the first fit; the dependence functions start from   *)
     (* their previously fitted parameters and may end in another local optimum - not judged        *)
     (* (refitdepdev is recorded for information only).                                             *)
-    <<"RefitSameEstimates", r.refitestdev = 0>>
+    <<"RefitSameEstimates", r.refitestdev = 0>>,
+    (* ... and its dependence functions are fitted to the pairs of THIS fit: their squared error on the    *)
+    (* (reference, estimate) pairs is not worse than that of a fresh model's (0.1 % + 2e-6 of sum y^2),     *)
+    (* in particular not the error of a function fitted against a conditioner's previous parameters         *)
+    <<"RefitDependenceFitsPairs", r.refitestdev = 0 =>
+         \A k \in 1..Len(r.freshobj) : r.refitobj[k] <= r.freshobj[k] + 2000 + (r.freshobj[k] \div 1000)>>
   >>
 
 (* expected call sequence of Distribution.fit: per dimension its own (method, weights), once for *)
